@@ -6,6 +6,7 @@ package main
 // a nil-able chain is absent) are accepted here and summarise to the same AST.
 
 import (
+	"encoding/hex"
 	"fmt"
 	"time"
 
@@ -31,6 +32,18 @@ import (
 )
 
 var badBytes = []byte{0x0a, 0xff, 0xff, 0xff} // field 1, length-delimited, truncated length varint
+
+// foreignPayload: optional hex payload argument of the generator-only forms of *UnknownUrl
+func foreignPayload(n *Node) []byte {
+	if len(n.Args) == 0 {
+		return nil
+	}
+	b, err := hex.DecodeString(n.arg(0).str())
+	if err != nil {
+		panic(err)
+	}
+	return b
+}
 
 func mustAny(url string, m proto.Message) *anypb.Any {
 	b, err := proto.MarshalOptions{Deterministic: true}.Marshal(m)
@@ -241,7 +254,7 @@ func bHTTPFilter(n *Node) *hcmv3.HttpFilter {
 	case "HFTypedStructBad":
 		f.ConfigType = &hcmv3.HttpFilter_TypedConfig{TypedConfig: &anypb.Any{TypeUrl: xdsresource.TypedStructTypeURL, Value: badBytes}}
 	case "HFUnknownUrl":
-		f.ConfigType = &hcmv3.HttpFilter_TypedConfig{TypedConfig: &anypb.Any{TypeUrl: "type.googleapis.com/envoy.extensions.filters.http.router.v3.Router"}}
+		f.ConfigType = &hcmv3.HttpFilter_TypedConfig{TypedConfig: &anypb.Any{TypeUrl: "type.googleapis.com/envoy.extensions.filters.http.router.v3.Router", Value: foreignPayload(n)}}
 	case "HFNotTyped":
 		if len(n.Args) > 0 { // generator-only: config discovery instead of unset
 			f.ConfigType = &hcmv3.HttpFilter_ConfigDiscovery{ConfigDiscovery: &corev3.ExtensionConfigSource{}}
@@ -281,7 +294,7 @@ func bNFilter(n *Node) *listenerv3.Filter {
 	case "NFHcmBad":
 		f.ConfigType = &listenerv3.Filter_TypedConfig{TypedConfig: &anypb.Any{TypeUrl: xdsresource.HTTPConnManagerTypeURL, Value: badBytes}}
 	case "NFUnknownUrl":
-		f.ConfigType = &listenerv3.Filter_TypedConfig{TypedConfig: &anypb.Any{TypeUrl: "type.googleapis.com/envoy.extensions.filters.network.tcp_proxy.v3.TcpProxy"}}
+		f.ConfigType = &listenerv3.Filter_TypedConfig{TypedConfig: &anypb.Any{TypeUrl: "type.googleapis.com/envoy.extensions.filters.network.tcp_proxy.v3.TcpProxy", Value: foreignPayload(n)}}
 	case "NFNotTyped":
 		if len(n.Args) > 0 {
 			f.ConfigType = &listenerv3.Filter_ConfigDiscovery{ConfigDiscovery: &corev3.ExtensionConfigSource{}}
@@ -400,7 +413,7 @@ func buildRes(kind string, n *Node) (a *anypb.Any, err error) {
 	url := typeURLs[kind]
 	switch n.Ctor {
 	case "RWrongUrl":
-		return &anypb.Any{TypeUrl: "type.googleapis.com/envoy.config.core.v3.Node", Value: []byte{}}, nil
+		return &anypb.Any{TypeUrl: "type.googleapis.com/envoy.config.core.v3.Node", Value: foreignPayload(n)}, nil
 	case "RUnparsable":
 		return &anypb.Any{TypeUrl: url, Value: badBytes}, nil
 	case "RGood":
